@@ -4,6 +4,9 @@
 import Hpfeeds.Lemmas.AioClient
 import Hpfeeds.Lemmas.BlkSession
 import Hpfeeds.Lemmas.BlkClient
+import Hpfeeds.Lemmas.AioTrace
+import Hpfeeds.Lemmas.BlkSessionTrace
+import Hpfeeds.Lemmas.BlkClientTrace
 namespace Hpfeeds.C12
 open Hpfeeds Extracted
 
@@ -28,6 +31,16 @@ theorem handed_in_order (cfg : Cfg) (es : List Ev) :
 theorem frames_are_the_bytes (cfg : Cfg) (es : List Ev) (c : Conn) (hc : (run cfg es).1.conn = some c) :
     c.inbound = c.processed.flatMap enc ++ c.buf :=
   (run_inv cfg es).1.bytes c hc
+
+/-- The observable form.  Over ANY event sequence, the values carried by the `handed` OUTPUTS — which are what
+    the correspondence check compares with the values the real read() calls return — are exactly the log of
+    `handed_in_order`: a prefix, in order, once each, of the OP_PUBLISH frames dispatched. -/
+theorem handed_is_observable (cfg : Cfg) (es : List Ev) :
+    (run cfg es).2.filterMap handedOf = (run cfg es).1.handedLog ∧
+    (run cfg es).2.filterMap handedOf <+: (run cfg es).1.allProcessed.filterMap pubOf := by
+  refine ⟨run_handed cfg es, ?_⟩
+  rw [run_handed, ← (handed_in_order cfg es).1]
+  exact List.prefix_append _ _
 
 /-! non-vacuity (kernel-evaluated): two PUBLISH frames split at an arbitrary byte, one early read() -/
 def exCfg : Cfg := { ident := [109], secret := [115], H := id }
@@ -55,6 +68,14 @@ theorem frames_are_the_bytes (cfg : Cfg) (es : List Ev) :
     (run cfg es).1.inbound = (run cfg es).1.processed.flatMap enc ++ (run cfg es).1.ubuf :=
   (run_inv cfg es).b.bytes
 
+/-- the observable form (as for the asyncio session) -/
+theorem handed_is_observable (cfg : Cfg) (es : List Ev) :
+    (run cfg es).2.filterMap handedOf = (run cfg es).1.handed ∧
+    (run cfg es).2.filterMap handedOf <+: (run cfg es).1.allProcessed.filterMap pubOf := by
+  refine ⟨run_handed cfg es, ?_⟩
+  rw [run_handed, ← handed_in_order cfg es]
+  exact List.prefix_append _ _
+
 def exCfg : Cfg := { ident := [109], secret := [115], H := id }
 def exInfo : Bytes := [0,0,0,12,1,2,104,112,9,8,7,6]
 def exPub (x : UInt8) : Bytes := [0,0,0,10,3,1,97,1,99,x]
@@ -81,6 +102,13 @@ theorem callbacks_in_order (cfg : Cfg) (es : List Ev) :
 theorem frames_are_the_bytes (cfg : Cfg) (es : List Ev) :
     (run cfg es).1.fed = (run cfg es).1.popped.flatMap enc ++ (run cfg es).1.ubuf :=
   (dinv_run cfg es).bytes
+
+/-- The observable form: over ANY event sequence the callbacks that appear in the OUTPUT — what the
+    correspondence check compares with the real message_callback / error_callback invocations — are exactly
+    the ones owed for the frames run() took, in order, once each. -/
+theorem callbacks_are_observable (cfg : Cfg) (es : List Ev) :
+    (run cfg es).2.filterMap cbOut = (run cfg es).1.runFrames.filterMap cbOf := by
+  rw [run_callbacks, callbacks_in_order]
 
 /-- what a callback is owed for: the fields are the ones the frame carries -/
 theorem callback_carries (f : Frame) (i c p : Bytes) (h : cbOf f = some (.msg (i, c, p))) :
